@@ -55,7 +55,14 @@ class CheckC15(core.Check):
         for _ in range(8000 if quick else 300000):
             ln = rnd.randrange(4, 31)
             seq = [rnd.randrange(len(SYMS)) if rnd.random() < 0.5 else rnd.randrange(4) for _ in range(ln)]
-            descs.append((rnd.choice(CIPHERS), rnd.choice(["D", "R", "DR"]), rnd.choice(["tr", "sl"]), ".".join(map(str, seq))))
+            descs.append((rnd.choice(CIPHERS), rnd.choice(["D", "R", "DR"]), rnd.choice(["tr", "sl", "mixA", "mixB"]), ".".join(map(str, seq))))
+        # one endpoint stateless, the other stateful (mixA: initiator stateless; mixB: responder stateless)
+        for mode in ("mixA", "mixB"):
+            for ln in range(1, 4):
+                for seq in itertools.product(range(len(SYMS)), repeat=ln):
+                    if not any(SYMS[i][0] in "rm" for i in seq) or not any(SYMS[i][0] == "w" for i in seq):
+                        continue
+                    descs.append((rnd.choice(CIPHERS), "D", mode, ".".join(map(str, seq))))
         # one-way pattern (only the initiator writes; rekeys of the unused direction must not disturb the used one)
         for ci in CIPHERS:
             for mode in ("tr", "sl"):
@@ -75,8 +82,9 @@ class CheckC15(core.Check):
         c = Case("rk-%s-%s-%s-%s-%s" % (pat, ci, be, mode, seqs), desc)
         sessions.add_pair(c, parsed, keys, res=(be, "D" if be == "D" else be), rng=("script:3", "script:4"), rec=("c", "c"))
         sessions.add_handshake(c, parsed, ["-"] * parsed.nmsgs)
-        st = mode == "sl"
-        sessions.add_convert(c, stateless=st)
+        stp = {"A": mode in ("sl", "mixA"), "B": mode in ("sl", "mixB")}
+        c.op("to_stateless" if stp["A"] else "to_transport", "A")
+        c.op("to_stateless" if stp["B"] else "to_transport", "B")
         steps = []
         cnt = [0, 0]
         # control: two plain messages per direction before any rekey. If these already differ from the model's AEAD
@@ -85,10 +93,9 @@ class CheckC15(core.Check):
             w, r = ("A", "B") if d == 0 else ("B", "A")
             for j in range(2):
                 kk = 1000 + 2 * d + j
-                kw = {"n": cnt[d]} if st else {}
-                lw = c.op("st_write" if st else "t_write", w, pay="gen:10:p%d" % kk, buf=BIG, out="m%d" % kk, **kw)
+                lw = c.op("st_write" if stp[w] else "t_write", w, pay="gen:10:p%d" % kk, buf=BIG, out="m%d" % kk, **({"n": cnt[d]} if stp[w] else {}))
                 steps.append((lw, "w", w, d, kk))
-                lr = c.op("st_read" if st else "t_read", r, msg="$m%d" % kk, buf=BIG, **kw)
+                lr = c.op("st_read" if stp[r] else "t_read", r, msg="$m%d" % kk, buf=BIG, **({"n": cnt[d]} if stp[r] else {}))
                 steps.append((lr, "r", r, d, kk))
                 cnt[d] += 1
         for k, i in enumerate(int(x) for x in seqs.split(".")):
@@ -96,11 +103,10 @@ class CheckC15(core.Check):
             if sym[0] == "w":
                 d = int(sym[2])
                 w, r = ("A", "B") if d == 0 else ("B", "A")
-                kw = {"n": cnt[d]} if st else {}
-                lw = c.op("st_write" if st else "t_write", w, pay="gen:10:p%d" % k, buf=BIG, out="m%d" % k, **kw)
+                lw = c.op("st_write" if stp[w] else "t_write", w, pay="gen:10:p%d" % k, buf=BIG, out="m%d" % k, **({"n": cnt[d]} if stp[w] else {}))
                 steps.append((lw, "w", w, d, k))
                 if sym[1] == "d":
-                    lr = c.op("st_read" if st else "t_read", r, msg="$m%d" % k, buf=BIG, **kw)
+                    lr = c.op("st_read" if stp[r] else "t_read", r, msg="$m%d" % k, buf=BIG, **({"n": cnt[d]} if stp[r] else {}))
                     steps.append((lr, "r", r, d, k))
                 cnt[d] += 1
             elif sym[0] == "r":
@@ -116,7 +122,7 @@ class CheckC15(core.Check):
                 lab = c.op("rekey_manual", p, i=kk.hex() if d == "i" else "-", r=kk.hex() if d == "r" else "-", flags=("sep",) if k % 2 else ())
                 steps.append((lab, "m" + d, p, kk.hex(), k))
         c.meta["steps"] = steps
-        c.info = {"key": desc, "st": st, "cipher": ci}
+        c.info = {"key": desc, "st": stp, "cipher": ci}
         return c
 
     def judge(self, case, events, death):
@@ -157,7 +163,7 @@ class CheckC15(core.Check):
                 r.foreign_dev("C10", "panic in %s" % e.op)
                 return r
             if kind == "w":
-                n = cnt[d] if st else sn[p]
+                n = cnt[d] if st[p] else sn[p]
                 pay = gen_bytes("p%d" % k, 10)
                 exp = prims.aead_encrypt(ci, key[p][d], n, b"", pay)
                 if not e.ok:
@@ -175,15 +181,14 @@ class CheckC15(core.Check):
                     return r
                 written[k] = (exp, n, key[p][d])
                 cnt[d] += 1
-                if not st:
+                if not st[p]:
                     sn[p] += 1
                 if rekeyed:
                     after += 1
                     r.stats["messages_after_rekey_compared"] += 1
             elif kind == "r":
                 msg, n, kused = written[k]
-                rd = cnt[d] - 1 if st else rn[p]
-                nonce_ok = True if st else (n == rn[p])
+                nonce_ok = True if st[p] else (n == rn[p])
                 should = (key[p][d] == kused) and nonce_ok
                 if should:
                     if not e.ok:
@@ -196,7 +201,7 @@ class CheckC15(core.Check):
                     if b != gen_bytes("p%d" % k, 10):
                         r.foreign_dev("C04", "payload differs")
                         return r
-                    if not st:
+                    if not st[p]:
                         rn[p] += 1
                     if rekeyed:
                         after += 1
@@ -230,7 +235,7 @@ class CheckC15(core.Check):
                 else:
                     key[p][1] = bytes.fromhex(d)
                 last_rk = {"ro": "rekey_outgoing", "ri": "rekey_incoming", "mi": "manual-initiator-key", "mr": "manual-responder-key", "mb": "manual-both-keys"}[kind]
-            if not st:
+            if not st[p]:
                 o = e.obs()
                 if o.get("sn") != str(sn[p]) or o.get("rn") != str(rn[p]):
                     if kind in ("ro", "ri", "mi", "mr", "mb"):
